@@ -196,7 +196,9 @@ class CallMixin:
     if ctr is not None:
       self.ctr_stack.append(ctr)
       self.register_loops(fnode, ctr)
-      self.module_globals = dict(C.MODULE_GLOBALS.get(ctr.file, {}))
+      from pyvc import loader as _loader
+      self.module_globals = dict(_loader.module_constants(ctr.file))
+      self.module_globals.update(C.MODULE_GLOBALS.get(ctr.file, {}))
     try:
       if isinstance(fnode, ast.Lambda):
         rs = self.ev(fnode.body, s2)
@@ -432,6 +434,19 @@ class CallMixin:
       return self.dict_copy(pos[0], st, node)
     self.unsupp('dict(...) form', node)
 
+  def bi_collections_defaultdict(self, pos, kw, st, node):
+    """collections.defaultdict(factory[, mapping]): new defaultdict with the mapping's items."""
+    trusted('collections.defaultdict(factory, mapping): new dict with the same items')
+    if len(pos) == 1:
+      st2, r = self.new_dict(st, 'defaultdict')
+      return [Res(st2, VRef(r))]
+    src = pos[1]
+    h = st.heap
+    if self.feasible_full(st, z3.Not(z3.And(is_VRef(src), cls_in(h.cls(ref(src)), 'dict')))):
+      self.unsupp('defaultdict(factory, non-dict)', node)
+    st2, r = self.new_dict(st, 'defaultdict', has=h.hasarr(ref(src)), val=h.valarr(ref(src)))
+    return [Res(st2, VRef(r))]
+
   def bi_set(self, pos, kw, st, node):
     if not pos:
       st2, r = self.new_dict(st, 'set')
@@ -633,6 +648,19 @@ class CallMixin:
       v = VRef(r)
       st2.meta[('excobj', v.get_id())] = Exc(name, val=v, origin=f'{name}()@{node.lineno}')
       return [Res(st2, v)]
+    if name == 'defaultdict':
+      return self.bi_collections_defaultdict(pos, kw, st, node)
+    if name == 'History':
+      trusted('History(mapping): dict subclass constructor copies the items')
+      if not pos:
+        st2, r = self.new_dict(st, 'History')
+        return [Res(st2, VRef(r))]
+      src = pos[0]
+      h = st.heap
+      if self.feasible_full(st, z3.Not(z3.And(is_VRef(src), cls_in(h.cls(ref(src)), 'dict')))):
+        self.unsupp('History(non-dict)', node)
+      st2, r = self.new_dict(st, 'History', has=h.hasarr(ref(src)), val=h.valarr(ref(src)))
+      return [Res(st2, VRef(r))]
     if name in DATACLASSES:
       fields = DATACLASSES[name]
       vals = dict(zip(fields, pos))
